@@ -16,7 +16,9 @@
                             interactEOL        writeToDB(r, "EOL"); close(True)     (finalisation)
                             interactError      try: writeToDB(r, "error"); close(False)  except: pass
                   "f"     an interface of the application: every hook changes the reactor state (val' = val + 1), or fails
-     RDbWrite   Operator._performTightCoupling: getInterface("database").writeDBEveryNode() after the coupled iterations
+     RDbWrite   Operator._performTightCoupling: getInterface("database").writeDBEveryNode() after the coupled iterations --
+                also in the cycles that are exempt from coupling (cfg.skip, cyclesSkipTightCouplingInteraction): every node of
+                every cycle is written whatever the coupling settings are
      Fail       the hook about to be called raises.  `with o: o.operate()` -> Operator.__exit__ -> interactAllError ->
                 DatabaseInterface.interactError; the run is over (crash records where).  Database.close moves the file from the
                 fast path to the working directory, so the file is in the working directory iff it was closed.
@@ -82,13 +84,15 @@ IfsOf(stack, tight) ==
                                [] OTHER             -> Iface(TRUE, FALSE, FALSE, FALSE, FALSE, FALSE)]
 \* bolset (Operator.tla): 0 = the reactor is at (sc, sn) when operate() is entered; i > 0 = the run is entered at (0, 0) and the
 \* BOL hook of interface i moves the reactor to (sc, sn) -- what MainInterface.interactBOL does in a restart
-RunCfg(steps, sc, sn, stack, tight, bolset) ==
+\* skip[c + 1]: cycle c is listed in cyclesSkipTightCouplingInteraction (only meaningful with tight coupling): no coupled
+\* iterations in that cycle, but _performTightCoupling still writes the database after every node
+RunCfg(steps, sc, sn, stack, tight, skip, bolset) ==
     [steps |-> steps, sc |-> sc, sn |-> sn, ifs |-> IfsOf(stack, tight), dcyc |-> 0, tight |-> tight, cap |-> 1,
-     skip |-> [k \in 1..Len(steps) |-> FALSE], bolset |-> bolset]
+     skip |-> skip, bolset |-> bolset]
 DbI == CHOOSE i \in 1..Len(roles) : roles[i] = "db"
 
-RInitWith(steps, sc, sn, stack, tight) ==
-    /\ InitWith(RunCfg(steps, sc, sn, stack, tight, 0))
+RInitWith(steps, sc, sn, stack, tight, skip) ==
+    /\ InitWith(RunCfg(steps, sc, sn, stack, tight, skip, 0))
     /\ roles = stack /\ db = NoDb /\ val = 0 /\ crash = NoCrash
     /\ phase = 1 /\ src = <<>> /\ crash1 = NoCrash
 
@@ -142,7 +146,7 @@ Restart(sc, sn) ==
     /\ <<sc, sn>> \in Nodes(cfg.steps) /\ <<sc, sn>> # <<0, 0>>
     /\ \/ pc = "Done" /\ Running                                         \* from a completed run: any later node
        \/ ~Running /\ crash.open /\ sc = crash.c /\ sn = crash.n            \* from an aborted run: the node of the failure
-    /\ ReInit(RunCfg(cfg.steps, sc, sn, roles, cfg.tight, 1))          \* the BOL hook of MainInterface sets the restart point
+    /\ ReInit(RunCfg(cfg.steps, sc, sn, roles, cfg.tight, cfg.skip, 1))          \* the BOL hook of MainInterface sets the restart point
     /\ phase' = 2 /\ src' = db.snaps /\ crash1' = crash
     /\ roles' = roles /\ db' = NoDb /\ val' = 0 /\ crash' = NoCrash
 RNext == RControl \/ RCall \/ RDbWrite \/ Fail
